@@ -392,7 +392,10 @@ def case_table(mon, xs, ys, kind, qseed):
             ys2[xs.index(sx[0])] = 0.0
         try:
             it2 = I(list(xs), ys2)
-        except Exception:
+        except Exception as ex:
+            # the abscissae are those of a table that was accepted above
+            mon.dev("refuse.limits-outside-table",
+                    dict(case, y=ys2, constructor_raised=repr(ex)))
             continue
         for (a, b) in ((sx[-1] + 1.0, sx[-1] + 3.0),
                        (sx[-1] + 3.0, sx[-1] + 0.5),
@@ -699,7 +702,10 @@ def case_narrow(mon, xs, ys, seedval):
                           lambda: {"x": xs, "y": ys, "xl": xl, "xh": xh,
                                    "width": xh - xl, "raised": repr(ex)})
                 continue
-            except Exception:
+            except Exception as ex:
+                mon.dev("refuse.equal-limits-only-when-equal",
+                        {"x": xs, "y": ys, "xl": xl, "xh": xh,
+                         "raised": repr(ex)})
                 continue
             mon.ok("refuse.equal-limits-only-when-equal")
     mon.cls("narrow-limits", ("narrow", seedval))
